@@ -127,6 +127,38 @@ def gen_thist_case(rng, cfg):
         feats.add('nontrivial')
     return Case('thist', {'t': t, 'ops': ops}, feats)
 
+def gen_fhist_case(rng, cfg):
+    """free-running threads on one shared tree without CachedSource nodes (lazy decode of binary
+    leaves, lazy sort of ReplaceSource): every answer is a function of the tree alone"""
+    g = gen_tree.Gen(rng, cfg)
+    t = g.node(weighted(rng, [(0, 2), (1, 3), (2, 4), (3, 2)]))
+    nthreads = weighted(rng, [(2, 3), (3, 2), (4, 1)])
+    # the first call of every thread tends to be one that triggers the lazy work
+    progs = []
+    for _ in range(nthreads):
+        ops = gen_hops(rng, maxlen=5)
+        if rng.random() < 0.6:
+            ops[0] = rng.choice(['src', 'rope', 's10', 'm1', 'hash', 'size'])
+        progs.append(ops)
+    feats = gen_tree.kinds_of(t, set())
+    feats.add('free_running')
+    if len(gen_tree.text_of(t)) >= 2:
+        feats.add('nontrivial')
+    return Case('fhist', {'t': t, 'progs': progs}, feats)
+
+def ser_fhist(obj):
+    return 'fhist %s %d %s' % (gen_tree.ser_node(obj['t']), len(obj['progs']), ' '.join(ser_hops(p) for p in obj['progs']))
+
+def shrink_fhist(obj):
+    progs = obj['progs']
+    for i in range(len(progs)):
+        if len(progs) > 1:
+            yield {'t': obj['t'], 'progs': progs[:i] + progs[i + 1:]}
+        for j in range(len(progs[i])):
+            yield {'t': obj['t'], 'progs': progs[:i] + [progs[i][:j] + progs[i][j + 1:]] + progs[i + 1:]}
+    for c2 in gen_tree.shrink_node(obj['t']):
+        yield {'t': c2, 'progs': progs}
+
 def ser_hist(kind):
     return lambda obj: '%s %s %s' % (kind, gen_tree.ser_node(obj['t']), ser_hops(obj['ops']))
 
